@@ -337,8 +337,30 @@ static const char* stname(ZixStatus st)
   }
 }
 
+// Out-parameters are handed over holding a STALE position (an iterator the caller used before, here
+// one that points into a dummy page): every query must overwrite it, also on an empty tree and
+// when nothing is found.  A position that is still the stale one afterwards is printed as "STALE".
+static _Alignas(64) unsigned char stale_page[64];
+
+static ZixBTreeIter stale_iter(void)
+{
+  ZixBTreeIter it = zix_btree_end_iter;
+  it.nodes[0]     = (ZixBTreeNode*)(void*)stale_page;
+  it.indexes[0]   = 1U;
+  return it;
+}
+
+static bool is_stale(const ZixBTreeIter it)
+{
+  return it.nodes[0] == (ZixBTreeNode*)(void*)stale_page;
+}
+
 static void put_iter(Buf* b, const ZixBTreeIter it)
 {
+  if (is_stale(it)) {
+    bprintf(b, "STALE");
+    return;
+  }
   if (zix_btree_iter_is_end(it)) {
     bprintf(b, "end");
     return;
@@ -351,7 +373,9 @@ static void put_iter(Buf* b, const ZixBTreeIter it)
 
 static void put_tag_or_end(Buf* b, const ZixBTreeIter it)
 {
-  if (zix_btree_iter_is_end(it)) {
+  if (is_stale(it)) {
+    bprintf(b, "STALE");
+  } else if (zix_btree_iter_is_end(it)) {
     bprintf(b, "end");
   } else {
     bprintf(b, "%d", elt_of(zix_btree_get(it))->tag);
@@ -546,7 +570,7 @@ static void run_case(char** tok, int ntok)
     }
     case 'f': {
       probe.key = atoi(op + 1);
-      ZixBTreeIter    it = zix_btree_end_iter;
+      ZixBTreeIter    it = stale_iter();
       const ZixStatus st = zix_btree_find(t, &probe, &it);
       bprintf(&ob, "f:%s:", stname(st));
       if (st == ZIX_STATUS_SUCCESS) {
@@ -604,7 +628,7 @@ static void run_case(char** tok, int ntok)
     case 'p': {
       probe.key = atoi(op + 1);
       cur_probe = &probe;
-      ZixBTreeIter    it = zix_btree_end_iter;
+      ZixBTreeIter    it = stale_iter();
       const ZixStatus st = zix_btree_lower_bound(t, op[0] == 'b' ? lb_cmp : wild_cmp, &lb_ud, &probe, &it);
       bprintf(&ob, "%c:%s:", op[0], stname(st));
       put_tag_or_end(&ob, it);
@@ -616,10 +640,15 @@ static void run_case(char** tok, int ntok)
     case 's': {
       probe.key = atoi(op + 1);
       cur_probe = &probe;
-      ZixBTreeIter it = zix_btree_end_iter;
+      ZixBTreeIter it = stale_iter();
       zix_btree_lower_bound(t, lb_cmp, &lb_ud, &probe, &it);
       seq_init(&tags);
       ZixStatus last = ZIX_STATUS_SUCCESS;
+      if (is_stale(it)) {
+        bprintf(&ob, "s:STALE ");
+        bprintf(&sb, "- ");
+        break;
+      }
       while (!zix_btree_iter_is_end(it)) {
         seq_add(&tags, elt_of(zix_btree_get(it))->tag);
         last = zix_btree_iter_increment(&it);
